@@ -56,6 +56,14 @@ def check_c01(seed, tier):
                     got = da.values
                     ok = da.shape == (n, m) and products.same_bits(got, want)
                     err = None
+                    # the same opened image read again after partial reads: earlier loads must leave no trace
+                    for sel in ({"rows": slice(1, None)}, {"rows": slice(0, max(1, n // 2)), "columns": slice(0, 1)}, {"rows": n - 1}):
+                        part = da.isel(**sel).values
+                        if not products.same_bits(part, want[sel["rows"]] if "columns" not in sel else want[sel["rows"], sel["columns"]]):
+                            ok, err = False, f"partial load {sel} differs from the samples written"
+                    again = t["imagery/HH/data"].values
+                    if ok and not products.same_bits(again, want):
+                        ok, err = False, "a full load issued after partial loads of the same opened image differs from the samples written"
                 except Exception as e:  # noqa: BLE001
                     ok, err = False, f"{type(e).__name__}: {e}"
                 finally:
